@@ -749,3 +749,6 @@ def workload(ctx):
     ctx.floor("walk_retries_after_a_raising_visit", 200)
     ctx.floor("optimizer_histories", 20)
     ctx.floor("handler:CachedMapper.get_cache_key", 10000)
+
+
+RULE = RULE + '  Later additions: a subject whose handlers map mapped operands again (rec in rec) under all 32 option sets; memoizing walks after a raising visit; thousands of keys on one instance.'
